@@ -11,6 +11,7 @@ from corankco.algorithms.borda.borda import BordaCount
 from corankco.algorithms.copeland.copeland import CopelandMethod
 from corankco.algorithms.kwiksort.kwiksortrandom import KwikSortRandom
 from corankco.algorithms.pickaperm.pickaperm import PickAPerm
+from corankco.algorithms.exact.exactalgorithmpulp import ExactAlgorithmPulp
 
 META = {
     "level": "exploration",
@@ -39,6 +40,13 @@ STARTERS = {
     "borda_copeland": lambda: [BordaCount(), CopelandMethod()],
     "kwik_pick": lambda: [KwikSortRandom(), PickAPerm()],
     "cop_kwik_borda": lambda: [CopelandMethod(), KwikSortRandom(), BordaCount()],
+    # starting points that coincide (the same algorithm twice, or algorithms that often agree) followed by a
+    # different, strong one: the de-duplication of departure rankings must not lose the distinct one
+    "borda_borda_exact": lambda: [BordaCount(), BordaCount(), ExactAlgorithmPulp()],
+    "cop_cop_pick": lambda: [CopelandMethod(), CopelandMethod(), PickAPerm()],
+    "borda_cop_exact": lambda: [BordaCount(), CopelandMethod(), ExactAlgorithmPulp()],
+    "cop_borda_bucket_borda_kwik": lambda: [CopelandMethod(), BordaCount(True), BordaCount(), KwikSortRandom()],
+    "exact_exact_borda": lambda: [ExactAlgorithmPulp(), ExactAlgorithmPulp(), BordaCount()],
 }
 SHAPES = ["incomplete", "incomplete", "sparse_block", "near_unanimous_incomplete", "cyclic_incomplete", "block_cyclic",
           "complete", "near_unanimous", "cyclic"]
@@ -53,8 +61,10 @@ def schemes():
 @st.composite
 def cases(draw, tier):
     big = tier == "thorough"
-    return {"starters": draw(st.sampled_from(sorted(STARTERS))), "scheme": draw(schemes()),
-            "dataset": draw(gen.datasets(max_n=14 if big else 8, max_m=6, shapes=SHAPES)),
+    starters = draw(st.sampled_from(sorted(STARTERS)))
+    mx = (14 if big else 8) if "exact" not in starters else 7
+    return {"starters": starters, "scheme": draw(schemes()),
+            "dataset": draw(gen.datasets(max_n=mx, max_m=6, shapes=SHAPES + ["cyclic_ties", "mixture"])),
             "at_most_one": draw(st.booleans()), "rng": draw(st.integers(0, 9999))}
 
 
@@ -144,5 +154,5 @@ def check_corollary(case, ctx):
 
 
 def subchecks():
-    return [HypSub("not_worse", cases, check, 6000, 60000),
+    return [HypSub("not_worse", cases, check, 9000, 80000),
             HypSub("corollaries", corollary_cases, check_corollary, 3000, 30000)]
